@@ -24,6 +24,7 @@ static bool nested_allowed(int op) {
     case OP_SELECT: case OP_INIT: case OP_LIST: case OP_GET_NAME: case OP_GET_DIM: case OP_GET: case OP_SET:
     case OP_SET_VEC: case OP_GET_VEC: case OP_PURGE: case OP_INIT_PARAM: case OP_SELECT_UNKNOWN: case OP_INIT_UNKNOWN:
     case OP_GET_UNKNOWN: case OP_SET_UNKNOWN: case OP_SANITY:
+    case OP_EVAL_SUP: case OP_EVAL_UNSUP:  // a callback may evaluate ANOTHER handle (never the one being evaluated)
       return true;
     default: return false;
   }
@@ -283,7 +284,7 @@ void Exec::do_mirror(const Step& st, const Client& cl) {
       if (unknown && inst.v.count(n)) unknown = false;
       double buf[64];
       for (double& d : buf) d = -777.0;
-      int cn = -5, crc = -7, xrc = -7;
+      int cn = (int)(st.u >> 8) % 8, crc = -7, xrc = -7;  // whatever the caller's int held before (often a shorter length)
       std::vector<double> got;
       CallOut co = call(false, [&] {
         crc = ::masa_get_array(n.c_str(), &cn, buf);
@@ -397,7 +398,8 @@ void Exec::do_step(const Step& st, const Client& cl, int depth) {
   const std::string handle = cl.handles.empty() ? std::string("h") : cl.handles[(size_t)(st.h < 0 ? 0 : st.h) % cl.handles.size()];
   // nested steps never touch the instance under evaluation
   if (depth > 0 && g_guard_prec == prec) {
-    if ((st.op == OP_INIT && handle == g_guard_handle) || (is_mutator(st.op) && R.has_cur && R.cur == g_guard_handle)) {
+    const bool nested_eval = st.op == OP_EVAL_SUP || st.op == OP_EVAL_UNSUP;
+    if ((st.op == OP_INIT && handle == g_guard_handle) || ((is_mutator(st.op) || nested_eval) && R.has_cur && R.cur == g_guard_handle)) {
       ++skipped;
       return;
     }
@@ -558,6 +560,7 @@ void Exec::do_step(const Step& st, const Client& cl, int depth) {
         // the value derived from Gamma (an evaluator that re-derives it is then visible)
         static const double mufac[4] = {1.0, 1.0, 0.9, 1.1};
         S g = S(g_sod_gamma[(size_t)st.c % 6]);
+        if (prec == 1) g += g * S((st.a / 4) % 3) * S(1.0842021724855044e-19) * S(8);  // long double: steps of a few ulps, invisible to a double
         S mu = ((g - S(1.e0)) / (g + S(1.e0))) * S(mufac[(size_t)st.a % 4]);
         writes.push_back(std::make_pair(std::string("Gamma"), g));
         writes.push_back(std::make_pair(std::string("mu"), mu));
@@ -893,7 +896,7 @@ void Exec::do_step(const Step& st, const Client& cl, int depth) {
       const bool unk = st.op == OP_GET_VEC_UNKNOWN;
       std::string n = unk ? unknown_name(st.a, true) : (vn.empty() ? std::string("vec_data") : vn[(size_t)st.a % vn.size()]);
       std::vector<S> got;
-      int rc = -7, crc = -7, cn = -5;
+      int rc = -7, crc = -7, cn = (int)(st.u >> 8) % 8;  // whatever the caller's int held before
       double buf[64];
       for (double& d : buf) d = -777.0;
       auto prim = [&] {
